@@ -356,7 +356,8 @@ def k_rules(p: Project, rep: Report):
                     dirs.add(text(ce.left))
                 if isinstance(ce, ast.Call) and (dotted(ce.func) or "").endswith("path.join") and len(ce.args) > 1:
                     dirs.add(text(ce.args[0]))
-                if any(wt.startswith(pref) for pref in (f"{ct}.with_name(", f"{ct}.with_suffix(", f"{ct}.with_stem(", f"{ct}.parent /", f"str({ct}) +", f"f'{{{ct}}}")) or any(wt.startswith(f"{d} /") or wt.startswith(f"({d}) /") or wt.startswith(f"os.path.join({d},") for d in dirs) or any(f"dir={d}" in wt for d in dirs):
+                cts = (ct, f"({ct})")
+                if any(wt.startswith(pref) for c_ in cts for pref in (f"{c_}.with_name(", f"{c_}.with_suffix(", f"{c_}.with_stem(", f"{c_}.parent /", f"str({c_}) +", f"str({ct}) +", f"f'{{{ct}}}")) or any(wt.startswith(f"{d} /") or wt.startswith(f"({d}) /") or wt.startswith(f"os.path.join({d},") for d in dirs) or any(f"dir={d}" in wt for d in dirs):
                     sd = True
             if sd is None:
                 if "gettempdir" in wt or wt.startswith(("'/tmp", "Path('/tmp", "tempfile.mkstemp()", "tempfile.NamedTemporaryFile()")) or (("mkstemp(" in wt or "NamedTemporaryFile(" in wt) and "dir=" not in wt):
